@@ -8,9 +8,9 @@ side of every cut point cannot be told apart by the step function (`Aut.Respects
 this is `class_abstraction_sound`), so exploring one representative per interval between
 consecutive cut points covers all code points.
 
-`explore` is an unverified worklist search; its result is a candidate bisimulation that the small
-function `closed` re-checks. Soundness (`re_equiv_sound`, in `Proofs/RegexDfa.lean`) is about
-`closed` only. On failure `explore` returns a shortest distinguishing string. -/
+`bisimExplore` is an unverified worklist search; its result is a candidate bisimulation that the small
+function `bisimClosed` re-checks. Soundness (`re_equiv_sound`, in `Proofs/RegexDfa.lean`) is about
+`bisimClosed` only. On failure `bisimExplore` returns a shortest distinguishing string. -/
 namespace ParolModel
 
 structure Aut (σ : Type) where
@@ -44,30 +44,30 @@ def cutsOf : Re → List Nat
 def reAut : Aut Re := ⟨deriv, nullable, cutsOf⟩
 
 /-- The greatest cut point `≤ x` (0 if there is none): the representative of `x`. -/
-def rep : List Nat → Nat → Nat
+def cutRep : List Nat → Nat → Nat
   | [], _ => 0
-  | c :: cs, x => if c ≤ x ∧ rep cs x ≤ c then c else rep cs x
+  | c :: cs, x => if c ≤ x ∧ cutRep cs x ≤ c then c else cutRep cs x
 
-inductive Verdict (σ τ : Type) where
+inductive BisimVerdict (σ τ : Type) where
   | equiv (seen : List (σ × τ))
   | differ (w : List Nat)
   | fuel
 
 /-- Breadth-first exploration of the product automaton over the alphabet `alpha`. -/
-def explore {σ τ : Type} [DecidableEq σ] [DecidableEq τ] (A : Aut σ) (B : Aut τ) (alpha : List Nat) :
-    Nat → List ((σ × τ) × List Nat) → List (σ × τ) → Verdict σ τ
+def bisimExplore {σ τ : Type} [DecidableEq σ] [DecidableEq τ] (A : Aut σ) (B : Aut τ) (alpha : List Nat) :
+    Nat → List ((σ × τ) × List Nat) → List (σ × τ) → BisimVerdict σ τ
   | _, [], seen => .equiv seen
   | 0, _ :: _, _ => .fuel
   | f + 1, (pq, path) :: todo, seen =>
-    if seen.contains pq then explore A B alpha f todo seen
+    if seen.contains pq then bisimExplore A B alpha f todo seen
     else if A.acc pq.1 != B.acc pq.2 then .differ path.reverse
     else
-      explore A B alpha f
+      bisimExplore A B alpha f
         (todo ++ alpha.map fun a => ((A.step pq.1 a, B.step pq.2 a), a :: path)) (pq :: seen)
 
-/-- `seen` contains the start pair, agrees on acceptance, is closed under steps on every letter of
+/-- `seen` contains the start pair, agrees on acceptance, is bisimClosed under steps on every letter of
     `alpha`, and `alpha` contains every cut point of every state in `seen`. -/
-def closed {σ τ : Type} [DecidableEq σ] [DecidableEq τ] (A : Aut σ) (B : Aut τ) (alpha : List Nat)
+def bisimClosed {σ τ : Type} [DecidableEq σ] [DecidableEq τ] (A : Aut σ) (B : Aut τ) (alpha : List Nat)
     (p0 : σ) (q0 : τ) (seen : List (σ × τ)) : Bool :=
   alpha.contains 0 && seen.contains (p0, q0) &&
   seen.all fun pq =>
@@ -87,14 +87,14 @@ def alphabetOf {σ τ : Type} (A : Aut σ) (B : Aut τ) (p0 : σ) (q0 : τ) : Li
 def autEquiv {σ τ : Type} [DecidableEq σ] [DecidableEq τ] (A : Aut σ) (B : Aut τ) (p0 : σ) (q0 : τ)
     (fuel : Nat := 4000) : Bool :=
   let alpha := alphabetOf A B p0 q0
-  match explore A B alpha fuel [((p0, q0), [])] [] with
-  | .equiv seen => closed A B alpha p0 q0 seen
+  match bisimExplore A B alpha fuel [((p0, q0), [])] [] with
+  | .equiv seen => bisimClosed A B alpha p0 q0 seen
   | _ => false
 
 /-- The distinguishing string found by the search, if any. -/
 def autWitness {σ τ : Type} [DecidableEq σ] [DecidableEq τ] (A : Aut σ) (B : Aut τ) (p0 : σ) (q0 : τ)
     (fuel : Nat := 4000) : Option (List Nat) :=
-  match explore A B (alphabetOf A B p0 q0) fuel [((p0, q0), [])] [] with
+  match bisimExplore A B (alphabetOf A B p0 q0) fuel [((p0, q0), [])] [] with
   | .differ w => some w
   | _ => none
 
@@ -102,14 +102,14 @@ def autWitness {σ τ : Type} [DecidableEq σ] [DecidableEq τ] (A : Aut σ) (B 
 def reEquiv (r s : Re) (fuel : Nat := 4000) : Bool := autEquiv reAut reAut r s fuel
 
 /-- An explicit automaton over `Nat` states with a start state. -/
-structure Dfa where
+structure SpecDfa where
   aut : Aut Nat
   start : Nat
 
-def Dfa.accepts (D : Dfa) (w : List Nat) : Bool := D.aut.accepts D.start w
+def SpecDfa.accepts (D : SpecDfa) (w : List Nat) : Bool := D.aut.accepts D.start w
 
-def reEquivDfa (r : Re) (D : Dfa) (fuel : Nat := 4000) : Bool := autEquiv reAut D.aut r D.start fuel
-def reDfaWitness (r : Re) (D : Dfa) (fuel : Nat := 4000) : Option (List Nat) :=
+def reEquivDfa (r : Re) (D : SpecDfa) (fuel : Nat := 4000) : Bool := autEquiv reAut D.aut r D.start fuel
+def reDfaWitness (r : Re) (D : SpecDfa) (fuel : Nat := 4000) : Option (List Nat) :=
   autWitness reAut D.aut r D.start fuel
 
 -- @handler re-equiv handleReEquiv
